@@ -23,7 +23,7 @@ CLEAR, SET, MAYBE = 'CLEAR', 'SET', 'MAYBE'
 
 
 class Outcome:
-    __slots__ = ('state', 'term', 'trace', 'problems', 'exit_kind')
+    __slots__ = ('state', 'term', 'trace', 'problems', 'exit_kind', 'consumed', 'flag_guard')
 
     def __init__(self, state, term, trace, problems, exit_kind):
         self.state = state
@@ -31,9 +31,12 @@ class Outcome:
         self.trace = trace
         self.problems = problems
         self.exit_kind = exit_kind
+        self.consumed = any(t.endswith(': del') or t.endswith(': pop') for t in trace)
+        self.flag_guard = any('eval_return' in t and t.endswith('True') for t in trace)
 
     def sig(self):
-        return (self.state, self.term, self.exit_kind, tuple(p[0] + '@' + str(p[1]) for p in self.problems))
+        return (self.state, self.term, self.exit_kind, self.consumed, self.flag_guard,
+                tuple(p[0] + '@' + str(p[1]) for p in self.problems))
 
 
 class FlagEngine:
@@ -214,11 +217,14 @@ class FlagEngine:
             for (s2, t2, tr2, pr2) in apply_node(n, st, term, trace, problems):
                 for succ, lab in n.succ:
                     s3 = s2
+                    tr3 = tr2
                     if n.kind == 'test':
                         ref = self._refine(n.ast, mod, lab, s2)
                         if ref is None:
                             continue            # infeasible arm
                         s3 = ref
+                        if s2 != CLEAR or ref != s2:
+                            tr3 = tr2 + [f'L{n.line}: test `{_txt(n)}` {lab}']
                     if lab == 'exc' or succ.kind == 'except':
                         # by the invariant under proof an exception never propagates
                         # while the flag is SET (R1b); the handler starts CLEAR when the
@@ -230,7 +236,7 @@ class FlagEngine:
                         continue
                     sig = (succ.id, s3, t2, len(pr2))
                     used[k] = c + 1
-                    rec(succ, s3, t2, tr2, pr2, used)
+                    rec(succ, s3, t2, tr3, pr2, used)
                     used[k] = c
 
         rec(cfg.entry, state_in, False, [], [], {})
@@ -351,8 +357,9 @@ class FlagEngine:
                     t2 = term
                 pr = problems + [(p[0], p[1], f'(via {callee.name}) ' + p[2]) for p in o.problems
                                  if p[0] == 'R1']
-                res.append((o.state, t2, trace + [f'L{n.line}: {callee.name} -> {o.state}'
-                                                  + ('/terminated' if o.term and same_tape else '')],
+                res.append((o.state, t2, trace + [f'{callee.name}: {t}' for t in o.trace]
+                            + [f'L{n.line}: {callee.name} -> {o.state}'
+                               + ('/terminated' if o.term and same_tape else '')],
                             pr))
             if not res:
                 res.append((st, term, trace, problems))
